@@ -447,6 +447,12 @@ pub fn prop(tier: Tier) -> Prop {
     }),
   }
   parts.push(Part {
+    name: "chains",
+    body: Box::new(body(Space::chains())),
+    modes: vec![Mode::Full],
+    what: "worlds around a redirect chain of 1-3 hops whose middle hops nothing imports directly (head imported statically / dynamically / type-only, a second importer entering at any hop, terminal TypeScript / JavaScript / missing / failing, optional leaf), enumerated completely",
+  });
+  parts.push(Part {
     name: "wasm-imports",
     body: Box::new(body_wasm),
     modes: vec![Mode::Full],
